@@ -613,7 +613,20 @@ add(C + "times_rise_transit_set", A(-180, 180), A(-89, 89), A(40, 41), A(-60, 60
 
 # ---- Interpolation / CurveFitting
 add("Interpolation.Interpolation", interp_tables().map(lambda t: t[0]), interp_tables().map(lambda t: t[1]))
-API["Interpolation.Interpolation"] = VarSpec("Interpolation.Interpolation", interp_tables())
+def interp_tables_any():
+    """Numeric tables, and tables whose abscissae and/or ordinates are Angle objects (documented;
+    negative values included)."""
+    def angles(t, ax, ay):
+        xs, ys = t
+        if ax:
+            xs = [{"$A": max(-359.0, min(359.0, x * 3.0))} for x in xs]
+        if ay:
+            ys = [{"$A": max(-359.0, min(359.0, y))} for y in ys]
+        return [xs, ys]
+    return st.builds(angles, interp_tables(), st.booleans(), st.booleans())
+
+
+API["Interpolation.Interpolation"] = VarSpec("Interpolation.Interpolation", interp_tables_any())
 for name in ("get_tolerance", "__str__", "__repr__", "__len__"):
     add("Interpolation.Interpolation." + name, self_st=SELF_INTERP)
 add("Interpolation.Interpolation.set_tolerance", F(1e-14, 1e-3), self_st=SELF_INTERP, mutator=True)
